@@ -287,7 +287,13 @@ class Signed(BitVector):
 
         if rhs == 0:
             return Signed[result_width]()
-        return Signed[result_width](int(lhs / rhs))
+
+        # exact quotient truncated toward zero; like numeric_std the result
+        # wraps to the width of the dividend (minimum value divided by -1)
+        quotient = abs(lhs) // abs(rhs)
+        if (lhs < 0) != (rhs < 0):
+            quotient = -quotient
+        return Signed[result_width](Signed._int_to_binary(result_width, quotient))
 
     @_intrinsic
     def _cohdl_rtruncdiv_(self, lhs: Signed) -> Signed:
@@ -304,7 +310,13 @@ class Signed(BitVector):
 
         if rhs == 0:
             return Signed[result_width]()
-        return Signed[result_width](int(lhs / rhs))
+
+        # exact quotient truncated toward zero; like numeric_std the result
+        # wraps to the width of the dividend (minimum value divided by -1)
+        quotient = abs(lhs) // abs(rhs)
+        if (lhs < 0) != (rhs < 0):
+            quotient = -quotient
+        return Signed[result_width](Signed._int_to_binary(result_width, quotient))
 
     @_intrinsic
     def __mod__(self, rhs: Signed) -> Signed:
